@@ -17,6 +17,7 @@ every system of them, every feed:
   the difference of the enthalpy levels solid = 0, liquid = Hfus, gas = Hfus + Hvap(298.15 K), by exhaustive cases;
 * `dH_formula`: `Reaction.dH = X · Σ ν (Hf + latent)/w`, `w` = 1 (mol) or MW (wt); `dH_defined` / `dH_raises` say when
   the property raises instead;
+* `dH_basis_agree`: `dH_wt · MW_reactant = dH_mol` for the reaction converted by `set_reaction_basis`;
 * `isothermal_identity` (+ `_dH`, `_stream`, `_untagged`, `_single`): reacting isothermally changes `Hnet = H + Hf·n`
   by `Σ_k dH_k·(reactant seen by reaction k)` plus the difference of the mixture enthalpy `H` net of the latent part
   already counted in `dH` — for any temperature, with `H` a parameter;
@@ -186,6 +187,24 @@ theorem dH_raises (pkg : Pkg α) (basis : Basis) (phases : List Phase) (r : Rxn 
           obtain ⟨e, he⟩ := this
           rw [he] at hok
           cases hok
+
+/-- **dH_basis_agree.**  Changing the basis of a reaction (`set_reaction_basis`: `ν ← ν ⊙ MW`, rescaled so that the
+reactant coefficient is −1 again, i.e. divided by the reactant's `MW`) turns J per mol of reactant into J per g of
+reactant: `dH_wt · MW_reactant = dH_mol`, so the heat released `dH · (reactant fed)` does not depend on the basis. -/
+theorem dH_basis_agree (pkg : Pkg α) (S : Nat) (lat : List α) (r : Rxn α) (mwr : α) (hmwr : mwr ≠ 0)
+    (hmw : ∀ s, s < S → weight pkg s ≠ 0) :
+    dHcore pkg .wt S lat { nu := tab S (fun s => get r.nu s * weight pkg s / mwr), r := r.r, X := r.X } * mwr
+      = dHcore pkg .mol S lat r := by
+  unfold dHcore
+  simp only
+  rw [mul_assoc, mul_comm (sumN _ S) mwr, ← sumN_mul_left mwr]
+  congr 1
+  apply sumN_congr
+  intro s hs
+  have hw := hmw s hs
+  rw [get_tab _ hs]
+  simp only [coef, weight] at hw ⊢
+  field_simp
 
 /-! ### 3. Isothermal reaction -/
 
